@@ -176,6 +176,8 @@ class ClassTr:
             if n.id in env:
                 if env[n.id] in ('@none', '@dead'):
                     raise Unsupported('use of %s (%s)' % (n.id, {'@none': 'fixed to None', '@dead': 'untranslatable local'}[env[n.id]]))
+                if env[n.id].startswith('@local:'):     # a local function passed as a value (e.g. to integrate.quad)
+                    return env[n.id][7:]
                 return env[n.id]
             if n.id in self.modconsts:
                 return lit(self.modconsts[n.id])
@@ -210,6 +212,8 @@ class ClassTr:
             return '(%s %s %s)' % (self.expr(n.left, env), op, self.expr(n.right, env))
         if isinstance(n, ast.Call):
             return self.call(n, env)
+        if isinstance(n, ast.IfExp) and self._none_test(n.test, env) is not None:
+            return self.expr(n.body if self._none_test(n.test, env) else n.orelse, env)
         if isinstance(n, ast.IfExp):
             return '(if %s then %s else %s)' % (self.cond(n.test, env), self.expr(n.body, env), self.expr(n.orelse, env))
         if isinstance(n, ast.Lambda):
@@ -221,6 +225,14 @@ class ClassTr:
                 env2[x.arg] = ident(x.arg)
             return '(fun %s => %s)' % (' '.join(ident(x.arg) for x in a.args), self.expr(n.body, env2))
         raise Unsupported('expression ' + ast.unparse(n)[:80])
+
+    def _none_test(self, t, env):
+        """`p is None` / `p is not None` on a parameter: True/False when statically known, else None."""
+        if isinstance(t, ast.Compare) and len(t.ops) == 1 and isinstance(t.ops[0], (ast.Is, ast.IsNot)) \
+                and isinstance(t.left, ast.Name) and t.left.id in env \
+                and isinstance(t.comparators[0], ast.Constant) and t.comparators[0].value is None:
+            return (env[t.left.id] == '@none') == isinstance(t.ops[0], ast.Is)
+        return None
 
     def cond(self, c, env):
         if isinstance(c, ast.Compare) and len(c.ops) == 1:
@@ -321,13 +333,9 @@ class ClassTr:
                 lets.append('let %s := %s in' % (nm, v))
                 env[st.target.id] = nm
                 continue
-            if isinstance(st, ast.If) and isinstance(st.test, ast.Compare) and len(st.test.ops) == 1 \
-                    and isinstance(st.test.ops[0], (ast.Is, ast.IsNot)) and isinstance(st.test.left, ast.Name) \
-                    and isinstance(st.test.comparators[0], ast.Constant) and st.test.comparators[0].value is None \
-                    and st.test.left.id in env:
+            if isinstance(st, ast.If) and self._none_test(st.test, env) is not None:
                 # `if p is None:` on an optional parameter: resolved statically (p fixed to None by the spec, or a real argument)
-                is_none = env[st.test.left.id] == '@none'
-                taken = st.body if is_none == isinstance(st.test.ops[0], ast.Is) else st.orelse
+                taken = st.body if self._none_test(st.test, env) else st.orelse
                 if self.body(taken, env, lets, need_return=False) is not None:
                     raise Unsupported('return inside `if ... is None` branch')
                 continue
